@@ -256,6 +256,18 @@ func (ex *Exec) intrinsic(fr *Frame, ins ssa.Instruction, fn *ssa.Function, args
 				ex.sharedHavoc("WaitGroup.Wait")
 			}
 			return nil, true
+		case "(*Cond).Broadcast", "(*Cond).Signal":
+			return nil, true
+		case "(*Cond).Wait":
+			// Wait releases the lock and re-acquires it: other critical sections may run in between
+			for key, h := range ex.st.locks {
+				if h.ls != nil && h.ls.via != "" {
+					ex.lockReleased(fr, ins, h.ls, h.obj)
+					ex.lockAcquired(fr, ins, h.ls, h.obj)
+					_ = key
+				}
+			}
+			return nil, true
 		case "(*Once).Do":
 			ex.note("sync.Once.Do: the function runs at most once; its effects are not followed here")
 			return nil, true
@@ -539,6 +551,31 @@ func (ex *Exec) evalCall(e *Expr, env *Env) Val {
 				unsup("contract: same() needs slices or strings")
 			}
 			return ex.boolV(ts.And(ts.Eq(x.Base, y.Base), ts.Eq(x.Off, y.Off), ts.Eq(x.Len, y.Len)))
+		case "inmap", "mapat":
+			// inmap(m, kid) / mapat(m, kid): map m at an abstract key identity kid (use with `forall kid ref :: ...`)
+			mv := ex.eval1(args[0], env)
+			ms, ok := mv.(Scalar)
+			if !ok || ms.Typ == nil {
+				unsup("contract: %s on %T", f.Name, mv)
+			}
+			r := ex.mapRegs(ms.Typ)
+			var kt *Term
+			switch kv := ex.eval1(args[1], env).(type) {
+			case RefPtr:
+				kt = kv.Ref
+			case Scalar:
+				kt = kv.T
+			default:
+				unsup("contract: %s key id", f.Name)
+			}
+			if kt.S != r.ks {
+				unsup("contract: %s: key identity has sort %s, the map's keys have sort %s", f.Name, kt.S, r.ks)
+			}
+			v, present := ex.mapRead(r, ms.T, kt)
+			if f.Name == "inmap" {
+				return ex.boolV(present)
+			}
+			return v
 		case "haskey":
 			// haskey(m, k): k is in the domain of map m
 			mv := ex.eval1(args[0], env)
